@@ -13,7 +13,8 @@
   Environment assumption carried by `Inv`: the allocation callbacks never hand out
   2^63 bytes or more (`allocLimit < 2^63`, true of every malloc: PTRDIFF_MAX).
 -/
-import Mhd.Proofs.WSRoundCtrl
+import Mhd.Proofs.WSFragSend
+import Mhd.Proofs.WSFragOut
 
 namespace Mhd.C19
 open Mhd.WS
@@ -48,7 +49,17 @@ theorem split_independent_init (flags maxPayload allocLimit : Nat) (ws : WS) (ha
 example : session ws0 ([0x88, 0x87, 1, 2, 3, 4, 0x02, 0xea, 0x61, 0x7d, 0x64, 0x23, 0x22].map fun b => [b]) =
     [(8, some [0x03, 0xe8, 0x62, 0x79, 0x65, 0x21, 0x21, 0], 7)] := by decide
 
-/-! ## (ii) round trip -/
+/-! ## (ii) round trip
+
+  `roundtrip_data` (one text / binary frame), `roundtrip_pingpong`, `roundtrip_close`,
+  `roundtrip_close_noreason`, and for messages sent as FIRST / FOLLOWING… / LAST fragments with
+  ping / pong frames in between `roundtrip_fragmented_assembled` and
+  `roundtrip_fragmented_fragments` (+ `fragments_binary`, `fragments_lossless`).  The sending
+  side is in every theorem the model of the real encoder (`encodeData` behind
+  `MHD_websocket_encode_text/_binary`, `encodePingPong`, `encodeClose` of `Mhd.Model.WS`), not a
+  separate renderer; that the frames are RFC 6455 framing (`frameBytes`) is a lemma
+  (`encodeFrame_ok`, `encodeFrame_full`).  Until the fragmented case was proved these theorems
+  carried the suffix `_partial`. -/
 
 /-- **decode (encode m) = m**, text and binary messages sent as one frame
     (`MHD_websocket_encode_text/binary` with `MHD_WEBSOCKET_FRAGMENTATION_NONE`).
@@ -59,7 +70,7 @@ example : session ws0 ([0x88, 0x87, 1, 2, 3, 4, 0x02, 0xea, 0x61, 0x7d, 0x64, 0x
     application gets exactly one frame — status = opcode, the payload NUL-terminated
     (`NULL` for an empty one), its length.  Size hypotheses: the payload fits the receiver's
     configured maximum and both allocations succeed. -/
-theorem roundtrip_data_partial (wsR wsS : WS) (h : Inv wsR) (hs : wsR.step = 0) (hv : wsR.validity = 1)
+theorem roundtrip_data (wsR wsS : WS) (h : Inv wsR) (hs : wsR.step = 0) (hv : wsR.validity = 1)
     (hdt : wsR.dataType = 0) (hrole : wsS.isClient = !wsR.isClient) (op : Nat) (hop : op = 1 ∨ op = 2)
     (payload : List UInt8) (hn : payload.length < 2 ^ 63)
     (hmax : wsR.maxPayload = 0 ∨ payload.length ≤ wsR.maxPayload) (halR : payload.length + 1 ≤ wsR.allocLimit)
@@ -80,7 +91,7 @@ theorem roundtrip_data_partial (wsR wsS : WS) (h : Inv wsR) (hs : wsR.step = 0) 
 /-- **decode (encode m) = m**, ping and pong frames: any payload of ≤ 125 bytes, any key, any
     chunking, any live receiver state between two frames (also inside a fragmented message or
     after a close frame). -/
-theorem roundtrip_pingpong_partial (wsR wsS : WS) (h : Inv wsR) (hs : wsR.step = 0) (hv : wsR.validity ≠ 0)
+theorem roundtrip_pingpong (wsR wsS : WS) (h : Inv wsR) (hs : wsR.step = 0) (hv : wsR.validity ≠ 0)
     (hrole : wsS.isClient = !wsR.isClient) (op : Nat) (hop : op = 9 ∨ op = 10)
     (payload : List UInt8) (hn : payload.length ≤ 125)
     (hmax : wsR.maxPayload = 0 ∨ payload.length ≤ wsR.maxPayload) (halR : payload.length + 1 ≤ wsR.allocLimit)
@@ -105,7 +116,7 @@ theorem roundtrip_pingpong_partial (wsR wsS : WS) (h : Inv wsR) (hs : wsR.step =
 /-- **decode (encode m) = m**, close frames (`MHD_websocket_encode_close` with a status code
     ≥ 1000 and a reason of ≤ 123 bytes of valid UTF-8): the receiver gets a CLOSE_FRAME whose
     payload is the two code bytes (network order) followed by the reason. -/
-theorem roundtrip_close_partial (wsR wsS : WS) (h : Inv wsR) (hs : wsR.step = 0) (hv : wsR.validity ≠ 0)
+theorem roundtrip_close (wsR wsS : WS) (h : Inv wsR) (hs : wsR.step = 0) (hv : wsR.validity ≠ 0)
     (hrole : wsS.isClient = !wsR.isClient) (code : Nat) (hcode : 1000 ≤ code) (reason : List UInt8)
     (hn : reason.length ≤ 123) (hutf : checkUtf8 reason 0 0 = .ok 0)
     (hmax : wsR.maxPayload = 0 ∨ 2 + reason.length ≤ wsR.maxPayload) (halR : 2 + reason.length + 1 ≤ wsR.allocLimit)
@@ -140,18 +151,204 @@ theorem roundtrip_close_partial (wsR wsS : WS) (h : Inv wsR) (hs : wsR.step = 0)
   rw [e136] at hrun
   rw [session_of_run h hq hv _ hrun]
   simp [plOf, beBytes]
-/- `_partial`: the statement of C19 (ii) also covers messages sent as FIRST / FOLLOWING / LAST
-   fragments (and their delivery as fragments with `MHD_WEBSOCKET_FLAG_WANT_FRAGMENTS`).  That
-   part is not proved here (no obstacle is known: `header_run` covers the headers of
-   continuation frames; what is missing is the accumulation invariant over a fragment
-   sequence).  It is covered by the correspondence run (reference encoder + reference framer
-   on fragmented messages with interleaved control frames, real two-phase round trips). -/
+
+/-- … and `MHD_websocket_encode_close (ws, MHD_WEBSOCKET_CLOSEREASON_NO_REASON, NULL, 0, …)`: a
+    close frame without payload arrives as a CLOSE_FRAME with `NULL` / 0.  (`1 ≤ allocLimit` is
+    not needed by the decoder, which allocates nothing here; the helper lemma asks for it.) -/
+theorem roundtrip_close_noreason (wsR wsS : WS) (h : Inv wsR) (hs : wsR.step = 0) (hv : wsR.validity ≠ 0)
+    (hrole : wsS.isClient = !wsR.isClient) (halR : 1 ≤ wsR.allocLimit)
+    (halS : overheadSize wsS 0 + 0 + 1 ≤ wsS.allocLimit) :
+    ∃ wire, (encodeClose wsS 0 []).st = 0 ∧ (encodeClose wsS 0 []).frame = some (wire ++ [0]) ∧
+      ∀ chunks : List (List UInt8), chunks.flatten = wire → session wsR chunks = [(8, none, 0)] := by
+  have henc : encodeClose wsS 0 [] = encodeFrame wsS 0x88 0 (fun mask => copyPayload [] mask 0) := by
+    unfold encodeClose
+    simp only [List.length_nil, ne_eq, not_true_eq_false, false_and, or_self, if_false,
+      show ¬ (123 < 0) by omega]
+    congr 1
+    funext mask
+    unfold copyPayload xorMask; simp
+  obtain ⟨m1, m2, m3, m4, hst, _, hfr⟩ := encodeFrame_ok wsS 0x88 0
+    (fun mask => copyPayload [] mask 0) (fun m => copyPayload_length _ _ _) halS
+  rw [henc]
+  refine ⟨_, hst, hfr, ?_⟩
+  intro chunks hc
+  have hq : sil wsR = 0 := by unfold sil; rw [hs]; simp
+  obtain ⟨ws', hrun, _⟩ := roundtrip_ctrl_run wsR h hs hv 8 (by omega) [] (by simp) (by simp) (by simp) (by simpa using halR)
+    (by simp) m1 m2 m3 m4 wsS.isClient hrole _ rfl
+  rw [split_independent wsR h hq hv chunks, hc]
+  have e136 : UInt8.ofNat (0x80 + 8) = 0x88 := rfl
+  rw [e136, List.length_nil] at hrun
+  rw [session_of_run h hq hv _ hrun]
+  simp [plOf]
 
 /-- non-vacuity: a client sends "hé" masked with the key 01 02 03 04 to a server -/
 example : (encodeData { ws0 with flags := 1, rng := [1, 2, 3, 4] } [0x68, 0xC3, 0xA9] 0 1).frame =
       some ([0x81, 0x83, 1, 2, 3, 4, 0x69, 0xC1, 0xAA] ++ [0]) ∧
     session ws0 [[0x81, 0x83, 1], [2, 3, 4, 0x69, 0xC1], [0xAA]] = [(1, some [0x68, 0xC3, 0xA9, 0], 3)] := by
   constructor <;> decide
+
+/-! ### (ii) round trip, fragmented messages
+
+  The sender is the model of an application that calls `MHD_websocket_encode_text` (with its
+  `utf8_step` variable) or `MHD_websocket_encode_binary` with `MHD_WEBSOCKET_FRAGMENTATION_FIRST`
+  for `p0`, then for each element of `mids` either the same encoder with `…_FOLLOWING`
+  (`Mid.frag p`) or `MHD_websocket_encode_ping` / `_pong` (`Mid.ctrl 9 p` / `Mid.ctrl 10 p`), then
+  the data encoder with `…_LAST` for `pn`, and sends the `frame_len` bytes of every frame it
+  gets (`sendMessage`, `Mhd.Proofs.WSFragSend`; the encoders are the models of the real ones in
+  `Mhd.Model.WS`, the same the single-frame theorems use).  Any number of fragments, any payload
+  sizes (0 included), any keys from the sender's rng, both role pairings.
+
+  The receiver is between two frames with no message under assembly (`step = 0`,
+  `validity = 1`, `data_type = 0`, `data_payload = NULL`, `data_payload_size = 0`; every state
+  reached from `MHD_websocket_stream_init` with `data_type = 0` is like that).
+
+  Not covered, and why: a *close* frame between two fragments — the decoder then accepts only
+  control frames (`validity = ONLY_CONTROL_FRAMES`) and answers the next continuation frame with
+  PROTOCOL_ERROR (theorem `bad_frame_sequence`), so there is no round trip to state.
+-/
+
+/-- **decode (encode m) = m, fragmented message, assembling mode** (no
+    `MHD_WEBSOCKET_FLAG_WANT_FRAGMENTS`).  For every way of cutting the bytes sent into chunks
+    the receiving application gets the interleaved ping / pong frames, in order, as they arrive,
+    and then exactly one message: status = TEXT_FRAME / BINARY_FRAME, payload = the concatenation
+    of all fragment payloads, NUL-terminated (`NULL` if empty), its length.
+    Text: the hypothesis is that the *concatenation* is valid UTF-8 — a fragment boundary may
+    fall anywhere inside a multi-byte character.
+    Size conditions, receiver: the *whole message* fits `max_payload_size` (0 = no limit) and the
+    allocation limit (the decoder reallocs the message buffer frame by frame); each control
+    payload ≤ 125 bytes and within both limits (`CtrlOK`).  Sender: every frame fits its
+    allocation limit (`SendFits`, `SendOK`), which is below 2^63. -/
+theorem roundtrip_fragmented_assembled (wsR wsS : WS) (h : Inv wsR) (hs : wsR.step = 0) (hv : wsR.validity = 1)
+    (hdt : wsR.dataType = 0) (hnb : wsR.dataBuf = none) (hds : wsR.dataSize = 0)
+    (hw : wsR.wantFragments = false) (hrole : wsS.isClient = !wsR.isClient) (hAS : wsS.allocLimit < 2 ^ 63)
+    (op : Nat) (hop : op = 1 ∨ op = 2) (p0 : List UInt8) (mids : List Mid) (pn : List UInt8)
+    (hctl : ∀ x ∈ mids, CtrlOK wsR.maxPayload wsR.allocLimit x)
+    (hmax : wsR.maxPayload = 0 ∨ (p0 ++ midData mids ++ pn).length ≤ wsR.maxPayload)
+    (halR : (p0 ++ midData mids ++ pn).length + 1 ≤ wsR.allocLimit)
+    (hS0 : SendFits wsS p0) (hSm : ∀ x ∈ mids, SendOK wsS x) (hSn : SendFits wsS pn)
+    (hutf : op = 1 → checkUtf8 (p0 ++ midData mids ++ pn) 0 0 = .ok 0) :
+    ∃ tx, sendMessage wsS op p0 mids pn = some tx ∧
+      ∀ chunks : List (List UInt8), chunks.flatten = tx.wire →
+        session wsR chunks = midCtrlEvs mids ++
+          [(Int.ofNat op, plOf (p0 ++ midData mids ++ pn), (p0 ++ midData mids ++ pn).length)] := by
+  obtain ⟨k0, ks, kn, tx, hk, hsend, hwire⟩ := sendMessage_ok wsS hAS op hop p0 mids pn hS0 hSm hSn hutf
+  subst hk
+  refine ⟨tx, hsend, ?_⟩
+  intro chunks hc
+  have hq : sil wsR = 0 := by unfold sil; rw [hs]; simp
+  have hvv : wsR.validity ≠ 0 := by omega
+  have hb : Bnd wsR 0 [] 0 1 := ⟨h, hs, hv, hdt, by rw [hnb]; rfl, hds, h.u8a (by omega)⟩
+  obtain ⟨ws', hrun, _, _⟩ := msg_assembled hb hw wsS.isClient hrole op hop p0 k0 ks pn kn
+    (fun x hx => hctl x.1 (List.mem_map_of_mem hx)) hmax halR hutf
+  rw [split_independent wsR h hq hvv chunks, hc, hwire]
+  exact session_of_run h hq hvv _ hrun
+
+/-- **decode (encode m) = m, fragmented message, fragment mode**
+    (`MHD_WEBSOCKET_FLAG_WANT_FRAGMENTS`).  For every chunking the application gets, in the order
+    of the frames: the first fragment with status TEXT/BINARY_FIRST_FRAGMENT (`op ||| 0x10`),
+    each continuation frame with …_NEXT_FRAGMENT (`op ||| 0x20`) and each ping / pong frame in
+    its place, the last fragment with …_LAST_FRAGMENT (`op ||| 0x40`) — `msgFragEvs`, defined
+    in `Mhd.Proofs.WSFragOut` from `fragEv` / `fragEvs` / `fragCarry` of `Mhd.Proofs.WSFragMsg`.
+    Binary: each fragment carries exactly the payload of its frame (`fragments_binary` below).
+    Text: a fragment that ends inside a multi-byte character is handed out without the bytes of
+    that character (`cutLen`, `cutPl`), which are kept (`fragKeep`, 1–3 bytes) and handed out at
+    the head of the next fragment; nothing is lost or reordered (`fragments_lossless` below).
+    Size conditions (`FragOK`): each fragment payload — for text plus 3, the bytes possibly kept
+    back, which the decoder counts against the limits — fits `max_payload_size` and the
+    allocation limit, which is at least 4; control frames as in assembling mode. -/
+theorem roundtrip_fragmented_fragments (wsR wsS : WS) (h : Inv wsR) (hs : wsR.step = 0) (hv : wsR.validity = 1)
+    (hdt : wsR.dataType = 0) (hnb : wsR.dataBuf = none) (hds : wsR.dataSize = 0)
+    (hw : wsR.wantFragments = true) (hrole : wsS.isClient = !wsR.isClient) (hAS : wsS.allocLimit < 2 ^ 63)
+    (op : Nat) (hop : op = 1 ∨ op = 2) (p0 : List UInt8) (mids : List Mid) (pn : List UInt8)
+    (hal4 : 4 ≤ wsR.allocLimit)
+    (hok0 : FragOK op wsR.maxPayload wsR.allocLimit (.frag p0))
+    (hok : ∀ x ∈ mids, FragOK op wsR.maxPayload wsR.allocLimit x)
+    (hokn : FragOK op wsR.maxPayload wsR.allocLimit (.frag pn))
+    (hS0 : SendFits wsS p0) (hSm : ∀ x ∈ mids, SendOK wsS x) (hSn : SendFits wsS pn)
+    (hutf : op = 1 → checkUtf8 (p0 ++ midData mids ++ pn) 0 0 = .ok 0) :
+    ∃ tx, sendMessage wsS op p0 mids pn = some tx ∧
+      ∀ chunks : List (List UInt8), chunks.flatten = tx.wire →
+        session wsR chunks = msgFragEvs op p0 mids pn := by
+  obtain ⟨k0, ks, kn, tx, hk, hsend, hwire⟩ := sendMessage_ok wsS hAS op hop p0 mids pn hS0 hSm hSn hutf
+  subst hk
+  refine ⟨tx, hsend, ?_⟩
+  intro chunks hc
+  have hq : sil wsR = 0 := by unfold sil; rw [hs]; simp
+  have hvv : wsR.validity ≠ 0 := by omega
+  have hb : Bnd wsR 0 [] 0 1 := ⟨h, hs, hv, hdt, by rw [hnb]; rfl, hds, h.u8a (by omega)⟩
+  obtain ⟨ws', hrun, _, _⟩ := msg_fragments hb hw wsS.isClient hrole op hop p0 k0 ks pn kn hal4
+    (fun x hx => hok x.1 (List.mem_map_of_mem hx)) hok0 hokn hutf
+  rw [split_independent wsR h hq hvv chunks, hc, hwire]
+  exact session_of_run h hq hvv _ hrun
+
+/-- … binary: the fragments are exactly the frame payloads (statuses 0x12, 0x22 …, 0x42;
+    `plainEvs` lists the frames in the middle: `(0x22, payload, length)` for a continuation
+    frame, `(9 or 10, payload, length)` for a ping / pong). -/
+theorem fragments_binary (p0 : List UInt8) (mids : List Mid) (pn : List UInt8) :
+    msgFragEvs 2 p0 mids pn = (0x12, plOf p0, p0.length) :: plainEvs 2 mids ++ [(0x42, plOf pn, pn.length)] :=
+  msgFragEvs_binary p0 mids pn
+
+/-- … text and binary: the payloads of the fragment events (`payload[0 .. payload_len)` of every
+    event with a FIRST / NEXT / LAST status), concatenated in order, are the message — nothing
+    is lost, duplicated or reordered when bytes of a split character move to the next fragment. -/
+theorem fragments_lossless (op : Nat) (hop : op = 1 ∨ op = 2) (p0 : List UInt8) (mids : List Mid) (pn : List UInt8)
+    (hl : ∀ x ∈ mids, ∀ c p, x = .ctrl c p → c < 16) :
+    dataBytes (msgFragEvs op p0 mids pn) = p0 ++ midData mids ++ pn :=
+  msgFragEvs_lossless op hop p0 mids pn hl
+
+/-- the message of the examples: "hé!" as text, cut inside the `é` (C3 | A9), a ping between the
+    halves of the character, an empty continuation frame -/
+def exMids : List Mid := [.ctrl 9 [0x70], .frag [0xA9], .frag []]
+/-- a client whose rng hands out the keys 01 02 03 04, 05 06 07 08, … -/
+def exClient : WS := { ws0 with flags := 1, rng := (List.range 20).map fun i => UInt8.ofNat (i + 1) }
+
+theorem ws0_inv : Inv ws0 := (init_inv 0 0 1000 ws0 (by decide) rfl).1
+
+/-- non-vacuity of `roundtrip_fragmented_assembled`: the hypotheses hold for the example … -/
+example : ∃ tx, sendMessage exClient 1 [0x68, 0xC3] exMids [0x21] = some tx ∧
+    ∀ chunks : List (List UInt8), chunks.flatten = tx.wire →
+      session ws0 chunks = [(9, some [0x70, 0], 1), (1, some [0x68, 0xC3, 0xA9, 0x21, 0], 4)] :=
+  roundtrip_fragmented_assembled ws0 exClient ws0_inv rfl rfl rfl rfl rfl (by decide) (by decide) (by decide)
+    1 (Or.inl rfl) [0x68, 0xC3] exMids [0x21]
+    (by intro x hx; simp [exMids] at hx; rcases hx with rfl | rfl | rfl <;> first | trivial | (simp only [CtrlOK]; decide))
+    (Or.inl rfl) (by decide) (by unfold SendFits; decide)
+    (by intro x hx; simp [exMids] at hx; rcases hx with rfl | rfl | rfl <;> (simp only [SendOK, SendFits]; decide))
+    (by unfold SendFits; decide) (by intro _; decide)
+
+/-- … and these are the bytes: five frames with five keys; the same bytes cut at another place -/
+example : (sendMessage exClient 1 [0x68, 0xC3] exMids [0x21]).map (·.wire) =
+      some [0x01, 0x82, 1, 2, 3, 4, 0x69, 0xC1,   0x89, 0x81, 5, 6, 7, 8, 0x75,   0x00, 0x81, 9, 10, 11, 12, 0xA0,
+            0x00, 0x80, 13, 14, 15, 16,   0x80, 0x81, 17, 18, 19, 20, 0x30] ∧
+    session ws0 [[0x01, 0x82, 1, 2, 3, 4, 0x69], [0xC1, 0x89, 0x81, 5, 6, 7, 8, 0x75, 0x00, 0x81, 9, 10, 11, 12],
+                 [0xA0, 0x00, 0x80, 13, 14, 15, 16, 0x80, 0x81, 17, 18, 19, 20, 0x30]] =
+      [(9, some [0x70, 0], 1), (1, some [0x68, 0xC3, 0xA9, 0x21, 0], 4)] := by
+  constructor <;> decide
+
+/-- non-vacuity of `roundtrip_fragmented_fragments` (receiver with WANT_FRAGMENTS) … -/
+example : ∃ tx, sendMessage exClient 1 [0x68, 0xC3] exMids [0x21] = some tx ∧
+    ∀ chunks : List (List UInt8), chunks.flatten = tx.wire →
+      session { ws0 with flags := 2 } chunks = msgFragEvs 1 [0x68, 0xC3] exMids [0x21] :=
+  roundtrip_fragmented_fragments { ws0 with flags := 2 } exClient
+    (init_inv 2 0 1000 _ (by decide) rfl).1 rfl rfl rfl rfl rfl (by decide) (by decide) (by decide)
+    1 (Or.inl rfl) [0x68, 0xC3] exMids [0x21] (by decide)
+    (by simp only [FragOK]; decide)
+    (by intro x hx; simp [exMids] at hx; rcases hx with rfl | rfl | rfl <;> (simp only [FragOK, CtrlOK]; decide))
+    (by simp only [FragOK]; decide)
+    (by unfold SendFits; decide)
+    (by intro x hx; simp [exMids] at hx; rcases hx with rfl | rfl | rfl <;> (simp only [SendOK, SendFits]; decide))
+    (by unfold SendFits; decide) (by intro _; decide)
+
+/-- … and what the application gets: "h" (the C3 is kept back), the ping, "é" whole with the
+    second frame, an empty NEXT fragment, "!" — on the wire bytes cut as above -/
+example : msgFragEvs 1 [0x68, 0xC3] exMids [0x21] =
+      [(0x11, some [0x68, 0, 0], 1), (9, some [0x70, 0], 1), (0x21, some [0xC3, 0xA9, 0], 2), (0x21, none, 0),
+       (0x41, some [0x21, 0], 1)] ∧
+    session { ws0 with flags := 2 }
+        [[0x01, 0x82, 1, 2, 3, 4, 0x69], [0xC1, 0x89, 0x81, 5, 6, 7, 8, 0x75, 0x00, 0x81, 9, 10, 11, 12],
+         [0xA0, 0x00, 0x80, 13, 14, 15, 16, 0x80, 0x81, 17, 18, 19, 20, 0x30]] =
+      msgFragEvs 1 [0x68, 0xC3] exMids [0x21] ∧
+    dataBytes (msgFragEvs 1 [0x68, 0xC3] exMids [0x21]) = [0x68, 0xC3, 0xA9, 0x21] := by
+  refine ⟨?_, ?_, ?_⟩ <;> decide
 
 /-! ## (iv) no access outside the buffers -/
 
